@@ -510,6 +510,7 @@ fn run_walk_on<'a>(ctx: &mut Ctx, ts: &'a [Term<'a>], rng: &mut Rng) {
         }
     }
     let mut sampled = false;
+    let mut last_cmd_base = 0i64;
     for step in 0..64 {
         // occasionally re-stamp one terminal's state (same value, new arbitrary stamp)
         if rng.chance(0.1) {
@@ -541,7 +542,8 @@ fn run_walk_on<'a>(ctx: &mut Ctx, ts: &'a [Term<'a>], rng: &mut Rng) {
         }
         m.apply(op);
         let ok = if step % 8 == 7 || step == 63 {
-            observe_full(ctx, ts, &lab, &m, rng.range_i64(-1 << 40, 1 << 40), &tag, &hist)
+            last_cmd_base = rng.range_i64(-1 << 40, 1 << 40);
+            observe_full(ctx, ts, &lab, &m, last_cmd_base, &tag, &hist)
         } else {
             match observe_by_state(ctx, ts, &lab, &hist) {
                 Some((seen, _)) => check_relation(ctx, &seen, &m, "state-reads", &tag, &hist),
@@ -556,8 +558,27 @@ fn run_walk_on<'a>(ctx: &mut Ctx, ts: &'a [Term<'a>], rng: &mut Rng) {
             ctx.rep.sample("walk", format!("{} ... -> observed = model [{}]", hist(), fmt_partners(&m.partners())));
         }
     }
-    ctx.rep.tally("walks_completed");
     ctx.rep.max("walk_max_pairs", m.pairs.len() as f64);
+    // Coincidence phase on the matching the walk ended in (n up to 6, any matching): everything the
+    // terminals hold is known (labels; the commands of the last observation's second round), so the
+    // read-semantics oracle applies. Mostly paired writes of related values in every stamp order.
+    let mut w = World {
+        m: m.clone(),
+        st: (0..n).map(|k| Some(lab.datum(k))).collect(),
+        cm: (0..n).map(|k| Some(Datum::new(Time(last_cmd_base + 1000 - k as i64), cmd_label(k)))).collect(),
+    };
+    let mut log = vec![format!("walk {} with labels {:?}, commands cmd_label(k) @{}+1000-k", fmt_ops(&done), lab, last_cmd_base)];
+    let mut shape = Vec::new();
+    {
+        let hist = || format!("n={} history {:?}", n, log);
+        if !check_reads(ctx, ts, &w, &hist) {
+            return;
+        }
+    }
+    if !sem_steps(ctx, ts, rng, &mut w, &mut log, &mut shape, 8, true) {
+        return;
+    }
+    ctx.rep.tally("walks_completed");
 }
 // ------------------------------------------------------------------------------------------------
 // 3. read semantics on random values
@@ -583,12 +604,99 @@ fn sem_command(rng: &mut Rng) -> Command {
         _ => Command::Acceleration(v),
     }
 }
+fn special_state(rng: &mut Rng) -> State {
+    State::new_raw(rng.special(), rng.special(), rng.special())
+}
+/// Flip the sign of every zero component (== the original, different bits); if there is none, set one
+/// component to a zero first.
+fn zero_flipped(rng: &mut Rng, v: State) -> State {
+    let fl = |x: f32| if x == 0.0 { -x } else { x };
+    let mut v = v;
+    if v.position != 0.0 && v.velocity != 0.0 && v.acceleration != 0.0 {
+        return match rng.below(3) {
+            0 => State::new_raw(sem_value(rng), v.velocity, v.acceleration),
+            1 => State::new_raw(v.position, sem_value(rng), v.acceleration),
+            _ => State::new_raw(v.position, v.velocity, sem_value(rng)),
+        };
+    }
+    v.position = fl(v.position);
+    v.velocity = fl(v.velocity);
+    v.acceleration = fl(v.acceleration);
+    v
+}
+/// State value for one end given the value the other end holds: coincidences are made likely.
+fn state_related(rng: &mut Rng, other: Option<State>, pool: &[State]) -> State {
+    let r = rng.below(100);
+    match other {
+        Some(o) if r < 30 => o,                    // bit-identical re-issue of the other end's value
+        Some(o) if r < 40 => zero_flipped(rng, o), // equal-but-for-signed-zero, or differing in exactly one field
+        _ if r < 55 => *rng.pick(pool),
+        _ if r < 70 => special_state(rng),
+        _ => sem_state(rng),
+    }
+}
+fn other_kind(rng: &mut Rng, c: Command) -> Command {
+    let v = f32::from(c);
+    let kinds = [PositionDerivative::Position, PositionDerivative::Velocity, PositionDerivative::Acceleration];
+    let cur = PositionDerivative::from(c);
+    let others: Vec<PositionDerivative> = kinds.iter().cloned().filter(|k| *k != cur).collect();
+    Command::new(*rng.pick(&others), v)
+}
+/// Command for one end given the other end's: identical / same value other kind / same kind other value.
+fn command_related(rng: &mut Rng, other: Option<Command>) -> Command {
+    let r = rng.below(100);
+    match other {
+        Some(o) if r < 20 => o,
+        Some(o) if r < 40 => other_kind(rng, o),
+        Some(o) if r < 55 => Command::new(PositionDerivative::from(o), if rng.chance(0.5) { rng.special() } else { sem_value(rng) }),
+        _ if r < 70 => {
+            let v = rng.special();
+            match rng.below(3) {
+                0 => Command::Position(v),
+                1 => Command::Velocity(v),
+                _ => Command::Acceleration(v),
+            }
+        }
+        _ => sem_command(rng),
+    }
+}
+/// Stamp for one end given the other end's stamp: equal, adjacent, a few ns apart (below f32-seconds
+/// resolution for |t| >= 1 s), or unrelated. Only ever compared by the crate.
 fn sem_stamp(rng: &mut Rng, partner_stamp: Option<i64>) -> i64 {
+    let r = rng.below(100);
     match partner_stamp {
-        Some(p) if rng.chance(0.3) => p,
-        Some(p) if rng.chance(0.2) && p.abs() < i64::MAX - 2 => p + *rng.pick(&[-1i64, 1]),
+        Some(p) if r < 25 => p,
+        Some(p) if r < 40 => p.checked_add(*rng.pick(&[-1i64, 1])).unwrap_or(p),
+        Some(p) if r < 55 => p.checked_add(rng.sign() as i64 * rng.range_i64(1, 30)).unwrap_or(p),
+        _ if r < 70 => {
+            let (a, b) = rng.close_stamps();
+            if rng.chance(0.5) { a } else { b }
+        }
         _ => rng.stamp(),
     }
+}
+/// Stamps for the two ends of a paired write: (first, second) in every order relation.
+fn stamp_pair(rng: &mut Rng) -> (i64, i64) {
+    let (a, b) = match rng.below(10) {
+        0 | 1 => {
+            let s = if rng.chance(0.5) { rng.stamp() } else { rng.close_stamps().0 };
+            (s, s)
+        }
+        2 | 3 | 4 | 5 => rng.close_stamps(),
+        6 => {
+            let s = rng.stamp();
+            (s, s + 1)
+        }
+        _ => (rng.stamp(), rng.stamp()),
+    };
+    if rng.chance(0.5) { (a, b) } else { (b, a) }
+}
+/// Distinct i64 stamps that a comparison made after conversion to f32 (seconds) cannot tell apart.
+fn f32_confusable(a: i64, b: i64) -> bool {
+    a != b && (a as f32) == (b as f32)
+}
+fn bits_same(a: &State, b: &State) -> bool {
+    a.position.to_bits() == b.position.to_bits() && a.velocity.to_bits() == b.velocity.to_bits() && a.acceleration.to_bits() == b.acceleration.to_bits()
 }
 struct World {
     m: Model,
@@ -657,6 +765,15 @@ fn check_reads<'a>(ctx: &mut Ctx, ts: &'a [Term<'a>], w: &World, hist: &dyn Fn()
                     ctx.rep.eval();
                     let tcat = if x.time == y.time { "tie" } else if x.time > y.time { "own-newer" } else { "partner-newer" };
                     ctx.rep.tally(&format!("sem_state_stamp_{}", tcat));
+                    // coincidence coverage: equal values on both ends x stamp order, confusable stamps
+                    let vrel = if bits_same(&x.value, &y.value) { "bit-equal" } else if x.value == y.value { "equal-signed-zero" } else { "differ" };
+                    ctx.rep.tally(&format!("sem_state_values_{}_{}", vrel, tcat));
+                    if f32_confusable(x.time.0, y.time.0) {
+                        ctx.rep.tally(&format!("sem_state_stamps_f32-confusable_{}", tcat));
+                        if vrel != "differ" {
+                            ctx.rep.tally(&format!("sem_state_values_equal_stamps_f32-confusable_{}", tcat));
+                        }
+                    }
                     if g.time != x.time.max(y.time) {
                         ctx.bad(format!("C09/read/state/stamp/{}", tcat), format!("terminal {}: own {:?} partner {:?} read stamped {:?}, expected the max; {}", k, x, y, g.time, hist()));
                     }
@@ -689,6 +806,20 @@ fn check_reads<'a>(ctx: &mut Ctx, ts: &'a [Term<'a>], w: &World, hist: &dyn Fn()
             }
         };
         ctx.rep.tally(&format!("sem_command_{}_{}", link, ccat));
+        if let (Some(x), Some(y)) = (own, par) {
+            let same_kind = PositionDerivative::from(x.value) == PositionDerivative::from(y.value);
+            let same_val = f32::from(x.value).to_bits() == f32::from(y.value).to_bits();
+            let vrel = match (same_kind, same_val) {
+                (true, true) => "identical",
+                (false, true) => "same-value-other-kind",
+                (true, false) => "same-kind-other-value",
+                (false, false) => "unrelated",
+            };
+            ctx.rep.tally(&format!("sem_command_values_{}_{}", vrel, ccat));
+            if f32_confusable(x.time.0, y.time.0) {
+                ctx.rep.tally(&format!("sem_command_stamps_f32-confusable_{}", ccat));
+            }
+        }
         let ok = match (own, par) {
             (None, None) => got.is_none(),
             (Some(x), None) | (None, Some(x)) => is(&got, &x),
@@ -756,38 +887,103 @@ fn run_sem_on<'a>(ctx: &mut Ctx, ts: &'a [Term<'a>], rng: &mut Rng) {
         w.m.apply(op);
         log.push("connect(0,1)".into());
     }
+    if !sem_steps(ctx, ts, rng, &mut w, &mut log, &mut shape, steps, false) {
+        return;
+    }
+    ctx.rep.tally("sem_cases_completed");
+    ctx.rep.distinct(("sem", n, family, shape));
+    if ctx.rep.want_sample("sem") {
+        ctx.rep.sample("sem", format!("n={} history {:?}: all three reads of every terminal agreed with the oracle after every step", n, log));
+    }
+}
+fn log_state(k: usize, d: &Datum<State>) -> String {
+    format!("t{}.set(State[{} {} {}] @{})", k, f(d.value.position), f(d.value.velocity), f(d.value.acceleration), d.time.0)
+}
+fn log_command(k: usize, d: &Datum<Command>) -> String {
+    format!("t{}.set({:?}[{:08x}] @{})", k, d.value, f32::from(d.value).to_bits(), d.time.0)
+}
+fn do_write_state<'a>(ctx: &mut Ctx, ts: &'a [Term<'a>], w: &mut World, log: &mut Vec<String>, k: usize, d: Datum<State>) -> bool {
+    match write_state(&ts[k], d) {
+        Ok(Ok(())) => {}
+        other => {
+            ctx.bad("C09/write/state/failed".into(), format!("set(state {:?}) on terminal {}: {:?}; after {:?}", d, k, other, log));
+            return false;
+        }
+    }
+    w.st[k] = Some(d);
+    log.push(log_state(k, &d));
+    true
+}
+fn do_write_command<'a>(ctx: &mut Ctx, ts: &'a [Term<'a>], w: &mut World, log: &mut Vec<String>, k: usize, d: Datum<Command>) -> bool {
+    match write_command(&ts[k], d) {
+        Ok(Ok(())) => {}
+        other => {
+            ctx.bad("C09/write/command/failed".into(), format!("set(command {:?}) on terminal {}: {:?}; after {:?}", d, k, other, log));
+            return false;
+        }
+    }
+    w.cm[k] = Some(d);
+    log.push(log_command(k, &d));
+    true
+}
+/// Random continuation of a history on terminals whose complete state is `w`; all three reads of every
+/// terminal are checked after every step. `pair_heavy`: mostly paired writes (used after a walk).
+fn sem_steps<'a>(ctx: &mut Ctx, ts: &'a [Term<'a>], rng: &mut Rng, w: &mut World, log: &mut Vec<String>, shape: &mut Vec<(u8, usize, usize)>, steps: usize, pair_heavy: bool) -> bool {
+    let n = ts.len();
+    // per-history pool of state values shared by all terminals (equal values on unrelated ends)
+    let pool = [special_state(rng), sem_state(rng), State::new_raw(0.0, 0.0, 0.0)];
     for _ in 0..steps {
-        let r = rng.below(100);
-        if r < 35 {
+        let r = if pair_heavy { 45 + rng.below(40) } else { rng.below(100) };
+        if r < 25 {
+            // single state write, related to what the partner holds
             let k = rng.usize(n);
-            let ps = w.m.partner(k).and_then(|j| w.st[j]).map(|d| d.time.0);
-            let d = Datum::new(Time(sem_stamp(rng, ps)), sem_state(rng));
-            match write_state(&ts[k], d) {
-                Ok(Ok(())) => {}
-                other => {
-                    ctx.bad("C09/write/state/failed".into(), format!("set(state {:?}) on terminal {}: {:?}; after {:?}", d, k, other, log));
-                    return;
-                }
+            let po = w.m.partner(k).and_then(|j| w.st[j]);
+            let d = Datum::new(Time(sem_stamp(rng, po.map(|d| d.time.0))), state_related(rng, po.map(|d| d.value), &pool));
+            if !do_write_state(ctx, ts, w, log, k, d) {
+                return false;
             }
-            w.st[k] = Some(d);
             shape.push((0, k, 0));
-            log.push(format!("t{}.set(State[{} {} {}] @{})", k, f(d.value.position), f(d.value.velocity), f(d.value.acceleration), d.time.0));
-        } else if r < 65 {
+        } else if r < 45 {
             let k = rng.usize(n);
-            let ps = w.m.partner(k).and_then(|j| w.cm[j]).map(|d| d.time.0);
-            let d = Datum::new(Time(sem_stamp(rng, ps)), sem_command(rng));
-            match write_command(&ts[k], d) {
-                Ok(Ok(())) => {}
-                other => {
-                    ctx.bad("C09/write/command/failed".into(), format!("set(command {:?}) on terminal {}: {:?}; after {:?}", d, k, other, log));
-                    return;
-                }
+            let po = w.m.partner(k).and_then(|j| w.cm[j]);
+            let d = Datum::new(Time(sem_stamp(rng, po.map(|d| d.time.0))), command_related(rng, po.map(|d| d.value)));
+            if !do_write_command(ctx, ts, w, log, k, d) {
+                return false;
             }
-            w.cm[k] = Some(d);
             shape.push((1, k, 0));
-            log.push(format!("t{}.set({:?}[{:08x}] @{})", k, d.value, f32::from(d.value).to_bits(), d.time.0));
+        } else if r < 70 {
+            // paired write: both ends of a link (or two terminals that may be linked later) get related
+            // values with stamps in a chosen order relation
+            let pairs = w.m.key();
+            let (a, b) = if !pairs.is_empty() && rng.chance(0.75) {
+                let (x, y) = *rng.pick(&pairs);
+                if rng.chance(0.5) { (x, y) } else { (y, x) }
+            } else {
+                let a = rng.usize(n);
+                let mut b = rng.usize(n - 1);
+                if b >= a {
+                    b += 1;
+                }
+                (a, b)
+            };
+            let (ta, tb) = stamp_pair(rng);
+            if rng.chance(0.5) {
+                let va = state_related(rng, None, &pool);
+                let vb = state_related(rng, Some(va), &pool);
+                if !do_write_state(ctx, ts, w, log, a, Datum::new(Time(ta), va)) || !do_write_state(ctx, ts, w, log, b, Datum::new(Time(tb), vb)) {
+                    return false;
+                }
+                shape.push((4, a, b));
+            } else {
+                let va = command_related(rng, None);
+                let vb = command_related(rng, Some(va));
+                if !do_write_command(ctx, ts, w, log, a, Datum::new(Time(ta), va)) || !do_write_command(ctx, ts, w, log, b, Datum::new(Time(tb), vb)) {
+                    return false;
+                }
+                shape.push((5, a, b));
+            }
         } else {
-            let op = if r < 85 {
+            let op = if r < 90 {
                 let a = rng.usize(n);
                 let mut b = rng.usize(n - 1);
                 if b >= a {
@@ -803,7 +999,7 @@ fn run_sem_on<'a>(ctx: &mut Ctx, ts: &'a [Term<'a>], rng: &mut Rng) {
             if let Err(msg) = exec(ts, op) {
                 ctx.rep.tally("panics_observed");
                 ctx.bad(format!("C09/panic/{}", tag), format!("{} panicked: {}; after {:?}", fmt_ops(&[op]), msg, log));
-                return;
+                return false;
             }
             w.m.apply(op);
             shape.push(match op {
@@ -813,15 +1009,11 @@ fn run_sem_on<'a>(ctx: &mut Ctx, ts: &'a [Term<'a>], rng: &mut Rng) {
             log.push(fmt_ops(&[op]));
         }
         let hist = || format!("n={} history {:?}", n, log);
-        if !check_reads(ctx, ts, &w, &hist) {
-            return;
+        if !check_reads(ctx, ts, w, &hist) {
+            return false;
         }
     }
-    ctx.rep.tally("sem_cases_completed");
-    ctx.rep.distinct(("sem", n, family, shape));
-    if ctx.rep.want_sample("sem") {
-        ctx.rep.sample("sem", format!("n={} history {:?}: all three reads of every terminal agreed with the oracle after every step", n, log));
-    }
+    true
 }
 fn main() {
     let args = Args::parse();
@@ -931,6 +1123,20 @@ fn main() {
             "sem_pair_same_state_checks",
         ] {
             rep.floor(t, 1000);
+        }
+        // coincidence coverage: equal values on both ends x every stamp order; stamps a comparison in
+        // f32 seconds would confuse; commands equal in value / kind / both
+        for order in ["own-newer", "partner-newer", "tie"] {
+            rep.floor(&format!("sem_state_values_bit-equal_{}", order), 1000);
+            rep.floor(&format!("sem_state_values_equal-signed-zero_{}", order), 300);
+            for vrel in ["identical", "same-value-other-kind", "same-kind-other-value", "unrelated"] {
+                rep.floor(&format!("sem_command_values_{}_both-{}", vrel, order), 1000);
+            }
+        }
+        for order in ["own-newer", "partner-newer"] {
+            rep.floor(&format!("sem_state_stamps_f32-confusable_{}", order), 1000);
+            rep.floor(&format!("sem_state_values_equal_stamps_f32-confusable_{}", order), 1000);
+            rep.floor(&format!("sem_command_stamps_f32-confusable_both-{}", order), 1000);
         }
         rep.floor("sem_cases_completed", fl(20_000, 3_000_000));
     }
